@@ -22,6 +22,7 @@ import (
 	"0chain.net/chaincore/transaction"
 	"0chain.net/core/config"
 	"0chain.net/core/datastore"
+	"0chain.net/core/viper"
 	"0chain.net/sharder"
 
 	"verif/harness/common"
@@ -68,6 +69,7 @@ type drv struct {
 	rounds  map[int]round.RoundI    // rounds registered in the chain in this trace
 	deliv   map[string]bool         // block is in the sharder's memory
 	mbN     int64                   // magic block number of the genesis magic block (1)
+	mbNums  []int64                 // real magic block numbers of this trace, in order (mbNums[0] = genesis)
 }
 
 type digests struct{ all, hdr, txn, out, mb int }
@@ -92,7 +94,19 @@ func txnDigest(t *transaction.Transaction) string {
 // their outputs, its magic block (small integers for TLC).
 func digest(b *block.Block) digests {
 	var d digests
-	d.all = sum(jsonOf(b))
+	// the whole block as JSON, without the magic block (its node pools carry volatile statistics of the
+	// running process; the magic block has its own digest below)
+	var whole map[string]interface{}
+	if err := json.Unmarshal(jsonOf(b), &whole); err == nil {
+		delete(whole, "magic_block")
+		delete(whole, "miners")
+		delete(whole, "sharders")
+		delete(whole, "mpks")
+		delete(whole, "share_or_signs")
+		d.all = sum(jsonOf(whole))
+	} else {
+		d.all = sum(jsonOf(b))
+	}
 	hdr := fmt.Sprintf("%v|%v|%v|%v|%v|%v|%v|%v|%v|%v|%x|%v|%v|%v|%v|%v|%d|%d",
 		b.Version, b.CreationDate, b.LatestFinalizedMagicBlockHash, b.LatestFinalizedMagicBlockRound, b.PrevHash,
 		b.MinerID, b.Round, b.RoundRandomSeed, b.RoundTimeoutCount, b.Hash, []byte(b.ClientStateHash), b.Signature,
@@ -107,8 +121,12 @@ func digest(b *block.Block) digests {
 		out += fmt.Sprintf("%v|%v|%v;", t.TransactionOutput, t.OutputHash, t.Status)
 	}
 	d.txn, d.out = sum([]byte(txn)), sum([]byte(out))
-	if b.MagicBlock != nil {
-		d.mb = sum(jsonOf(b.MagicBlock))
+	if mb := b.MagicBlock; mb != nil {
+		mk, sk := mb.Miners.Keys(), mb.Sharders.Keys()
+		sort.Strings(mk)
+		sort.Strings(sk)
+		d.mb = sum([]byte(fmt.Sprintf("%v|%v|%v|%v|%v|%v|%v|%v|%v|%v", mb.Hash, mb.GetHash(), mb.MagicBlockNumber, mb.PreviousMagicBlockHash,
+			mb.StartingRound, mb.T, mb.K, mb.N, mk, sk)))
 	}
 	return d
 }
@@ -153,7 +171,21 @@ func Run(a common.Args) {
 		}
 		d.closing()
 	}
-	// (2) seeded random histories
+	// (2) fixed histories
+	for _, beh := range scripts() {
+		id++
+		if a.Only != 0 && a.Only != id {
+			rc.TraceID = id
+			continue
+		}
+		d.r = common.TraceRand(a.Seed, id)
+		d.reset(id, "script", beh.R, beh.K, beh.Batch, rec.M{"ops": beh.Ops})
+		for _, o := range beh.Ops {
+			d.play(o)
+		}
+		d.closing()
+	}
+	// (3) seeded random histories
 	for i := 0; i < a.N; i++ {
 		id++
 		if a.Only != 0 && a.Only != id {
@@ -179,6 +211,7 @@ type op struct {
 	R     int      `json:"r,omitempty"`
 	N     int      `json:"n,omitempty"`
 	Fork  bool     `json:"fork,omitempty"`
+	MB    bool     `json:"mb,omitempty"`
 	Steps []string `json:"steps,omitempty"`
 	Kind  string   `json:"kind,omitempty"`
 	Arg   string   `json:"arg,omitempty"`
@@ -210,6 +243,7 @@ func (d *drv) reset(id int, kind string, maxR, repl, batch int, args rec.M) {
 		rec.Fatal("reset lfb round: %v", err)
 	}
 	d.w.Head = g
+	viper.Set("server_chain.lfb_ticket.ahead", 5)
 	cd := c.ChainConfig.(*chain.ConfigImpl).ConfDataForTest()
 	cd.NumReplicators = repl
 	cd.HCCycleScan[sharder.DeepScan].BatchSize = int64(batch)
@@ -247,9 +281,7 @@ func (d *drv) reset(id int, kind string, maxR, repl, batch int, args rec.M) {
 	d.ufbMu.Lock()
 	d.ufbCalls = nil
 	d.ufbMu.Unlock()
-	for q := 1; q <= maxR; q++ {
-		d.addRound(q)
-	}
+	// (round objects are created when a block of the round arrives, as processBlock does)
 	d.rc.TraceID = id - 1
 	sc := rec.M{"family": "sharderfin", "kind": kind, "id": id, "rounds": maxR, "replicators": repl, "batch": batch}
 	for k, v := range args {
@@ -296,6 +328,7 @@ func (d *drv) boot() {
 		return d.sc.StoreMagicBlockMapFromBlock(g.GetSummary().GetMagicBlockMap())
 	})
 	d.mbN = g.MagicBlock.MagicBlockNumber
+	d.mbNums = []int64{d.mbN}
 	d.emit(rec.M{"ev": "Boot", "res": res}, "boot/"+res, true)
 }
 
@@ -322,6 +355,9 @@ func guardS(f func() error) string {
 
 // emit records the event followed by the projection of the real stores and memory.
 func (d *drv) emit(m rec.M, shape string, nontrivial bool) {
+	if os.Getenv("VERIF_DBG_REPL") != "" {
+		m["dbg_repl"] = d.c.NumReplicators()
+	}
 	d.rc.Emit(m, shape, nontrivial)
 	d.proj()
 }
@@ -331,7 +367,7 @@ func (d *drv) emit(m rec.M, shape string, nontrivial bool) {
 // produce makes the next canonical block (or, fork = true, a sibling of the canonical block of round q that is
 // never finalized) on the real chain: real transactions through Chain.UpdateState, real block hash, the
 // generator's signature and the miners' verification tickets.
-func (d *drv) produce(q int, ntx int, fork bool) string {
+func (d *drv) produce(q int, ntx int, fork bool, mb ...bool) string {
 	w := d.w
 	name := fmt.Sprintf("b%d", q)
 	if fork {
@@ -381,6 +417,18 @@ func (d *drv) produce(q int, ntx int, fork bool) string {
 	b.ChainID = datastore.ToKey(config.GetServerChainID()) // the world leaves it empty
 	b.RunningTxnCount = parent.RunningTxnCount + int64(len(b.Txns))
 	b.StateChangesCount = b.ClientState.GetChangeCount()
+	if len(mb) > 0 && mb[0] && !fork && len(d.mbNums) == 1 {
+		// the block carries the next magic block: same nodes, next number, linked to the latest finalized one
+		// (numbers grow over the life of the process; traces name them by their position: 1 = genesis)
+		lfmb := d.c.GetLatestFinalizedMagicBlock(d.ctx)
+		nmb := lfmb.MagicBlock.Clone()
+		nmb.MagicBlockNumber = lfmb.MagicBlock.MagicBlockNumber + 1
+		nmb.PreviousMagicBlockHash = lfmb.MagicBlock.Hash
+		nmb.StartingRound = b.Round
+		nmb.Hash = nmb.GetHash()
+		b.MagicBlock = nmb
+		d.mbNums = append(d.mbNums, nmb.MagicBlockNumber)
+	}
 	b.ComputeTxnMap()
 	b.HashBlock()
 	b.Signature = w.Miners[mi].Sign(b.Hash)
@@ -412,12 +460,20 @@ func (d *drv) produce(q int, ntx int, fork bool) string {
 		d.peerMu.Unlock()
 	}
 	self := d.w.SharderNodes[0]
+	// the nodes requestForBlock would ask for this block: its replicators other than this node
+	_, repl := d.c.CanShardBlockWithReplicators(b.Round, b.Hash, self)
+	others := 0
+	for _, n := range repl {
+		if n.ID != self.ID {
+			others++
+		}
+	}
 	dg := d.dig[name]
 	if txns == nil {
 		txns = []string{}
 	}
 	d.rc.Emit(rec.M{"ev": "Produce", "b": name, "r": q, "p": d.name(b.PrevHash), "fork": fork, "ntx": len(b.Txns), "txns": txns,
-		"hasmb": b.MagicBlock != nil, "resp": d.c.IsBlockSharder(b, self), "resp_hash": d.c.IsBlockSharderFromHash(b.Round, b.Hash, self),
+		"hasmb": b.MagicBlock != nil, "resp": d.c.IsBlockSharder(b, self), "resp_hash": d.c.IsBlockSharderFromHash(b.Round, b.Hash, self), "others": others,
 		"d_all": dg.all, "d_hdr": dg.hdr, "d_txn": dg.txn, "d_out": dg.out, "d_mb": dg.mb},
 		fmt.Sprintf("%s/ntx%d", map[bool]string{false: "canon", true: "fork"}[fork], min(len(b.Txns), 2)), true)
 	return name
@@ -436,6 +492,9 @@ func (d *drv) deliver(name string) {
 	b := d.blocks[name]
 	if b == nil || name == "g" || d.deliv[name] {
 		return
+	}
+	if b.Round <= d.c.GetLatestFinalizedBlock().Round {
+		return // NotarizedBlockHandler: "doesn't need a not. block for the round"
 	}
 	q := int(b.Round)
 	if d.rounds[q] == nil {
@@ -539,9 +598,9 @@ func (d *drv) proj() {
 		}
 	}
 	mbm := []rec.M{}
-	for n := int64(0); n <= 3; n++ {
-		if m, err := sc.GetMagicBlockMap(d.ctx, fmt.Sprint(d.mbN+n)); err == nil && m != nil {
-			mbm = append(mbm, rec.M{"n": n + 1, "b": d.name(m.Hash), "r": m.BlockRound})
+	for i, n := range d.mbNums {
+		if m, err := sc.GetMagicBlockMap(d.ctx, fmt.Sprint(n)); err == nil && m != nil {
+			mbm = append(mbm, rec.M{"n": i + 1, "b": d.name(m.Hash), "r": m.BlockRound})
 		}
 	}
 	lfb := d.c.GetLatestFinalizedBlock()
